@@ -703,6 +703,9 @@ pub fn build_world(cfg: &Cfg) -> SimWorld {
                 Bystander { v: 1.0 },
                 Animator::<Target>::with_timeline(build_target_merged(&cfg.tls[tl])),
             ));
+            // and an enabled animator that has a target but no timeline (yet): it must simply
+            // stay idle without disturbing the animators visited after it
+            app.world.spawn((target_of(&cfg.initial), Animator::<Target>::new()));
         }
     };
     if matches!(cfg.orphan, Some((_, true))) {
